@@ -145,10 +145,112 @@ def run(ctx, ck) -> None:
                 has_n = len(n.args) > 1 or any(k.arg == 'n' for k in n.keywords)
                 ck.expect('Z7', has_n, n, 'irfft is given its output length', f'kernel {fn.name} calls irfft without n: the default output length 2*(m-1) is one sample short for every odd FFT size', instance=f'{m} irfft length')
 
+    # ------------------------------------------------------------------ Z9 the dense builder is T[i, k] = band[|i - k|]
+    _dense_builder(ck, world)
+
     # ------------------------------------------------------------------ Z6
     am = cls.own.get('as_matrix')
     ok, why = c04.s_toeplitz(world, table, cls, am) if isinstance(am, ast.FunctionDef) else (False, 'as_matrix override vanished')
     ck.expect('Z6', ok, am or cls.node, why, f'as_matrix: {why}', instance='shared dense builder')
+
+
+def _to_poly(t, symbols: dict):
+    """Integer index arithmetic term -> exact polynomial (jnp.arange(m) is the generic element symbol `t`)."""
+    from ..poly import Poly
+
+    if t[0] == 'var':
+        if t[1] in symbols:
+            return symbols[t[1]]
+        return Poly.atom(('sym', t[1]))
+    if t[0] == 'const':
+        return Poly.const(int(t[1]))
+    if t[0] == 'unop' and t[1] == 'neg':
+        return -_to_poly(t[2], symbols)
+    if t[0] == 'binop' and t[1] in ('+', '-', '*'):
+        a, b = _to_poly(t[2], symbols), _to_poly(t[3], symbols)
+        return a + b if t[1] == '+' else a - b if t[1] == '-' else a * b
+    if t[0] == 'call' and t[1] == ('attr', ('var', 'jnp'), 'arange') and len(t[2]) == 1:
+        return Poly.atom(('sym', 't'))
+    raise ValueError(show(t))
+
+
+def _dense_builder(ck, world: World) -> None:
+    from ..paths import Path
+    from ..poly import Poly
+
+    fn = world.require(f'{TOE}.dense_symmetric_band_toeplitz')
+    n_name = fn.args.args[0].arg
+    loops = [st for st in fn.body if isinstance(st, ast.For)]
+    if len(loops) != 1 or not isinstance(loops[0].target, ast.Name):
+        ck.incomplete('Z9', fn, 'the dense builder no longer has a single loop over the band offsets')
+        return
+    loop = loops[0]
+    j = loop.target.id
+    pre = path_env(Path([('stmt', st) for st in fn.body[: fn.body.index(loop)] if isinstance(st, ast.Assign)]))
+    it = term(loop.iter, pre)
+    bw = None
+    if it[0] == 'call' and it[1] == ('var', 'range') and len(it[2]) == 2 and it[2][0][0] == 'unop' and it[2][0][1] == 'neg' and it[2][1] == ('binop', '+', it[2][0][2], ('const', '1')):
+        bw = it[2][0][2]
+    ck.expect('Z9', bw is not None and 'size' in show(bw) and '- 1' in show(bw), loop, 'offsets j run over -(K-1) .. K-1 with K the number of band values',
+              f'the band offsets iterate {show(it)}', instance='offset range')
+    N, J, T = Poly.atom(('sym', 'n')), Poly.atom(('sym', 'j')), Poly.atom(('sym', 't'))
+    symbols = {n_name: N, j: J}
+    nbranch = 0
+    from ..paths import enum_paths
+
+    for p in enum_paths(loop.body):
+        if p.exit not in ('fall', 'continue'):
+            continue
+        e = path_env(p)
+        conds = [(term(c), pol) for c, pol in p.conds()]
+        nonneg = None
+        for c, pol in conds:
+            if c in (('cmp', 'ge', ('var', j), ('const', '0')),):
+                nonneg = pol
+            elif c in (('cmp', 'lt', ('var', j), ('const', '0')),):
+                nonneg = not pol
+        if nonneg is None:
+            ck.incomplete('Z9', loop, 'the loop body does not branch on the sign of the offset', instance='branches')
+            return
+        nbranch += 1
+        value = e.get('value')
+        ok_val = value == ('sub', pre.get('band_values', ('var', 'band_values')), ('call', ('var', 'abs'), (('var', j),), ())) or (value is not None and value[0] == 'sub' and value[2] == ('call', ('var', 'abs'), (('var', j),), ()))
+        setcall = None
+        for st in p.stmts():
+            if isinstance(st, ast.Assign) and isinstance(st.value, ast.Call) and isinstance(st.value.func, ast.Attribute) and st.value.func.attr == 'set':
+                setcall = term(st.value, path_env(p, upto=st))
+        idx_t = m_t = None
+        if setcall is not None and setcall[1][1][0] == 'sub':
+            idx_t = setcall[1][1][2]
+            written = setcall[2][0] if setcall[2] else None
+            ok_val = ok_val and written == value
+        inst = 'upper diagonals (j >= 0)' if nonneg else 'lower diagonals (j < 0)'
+        try:
+            k = _to_poly(idx_t, symbols) if idx_t is not None else None
+            m = _to_poly(e['m'], symbols) if 'm' in e else None
+        except (ValueError, KeyError) as exc:
+            ck.incomplete('Z9', loop, f'index arithmetic outside the polynomial language: {exc}', instance=inst)
+            continue
+        if k is None:
+            ck.incomplete('Z9', loop, 'no .at[indices].set(value) in this branch', instance=inst)
+            continue
+        if nonneg:
+            want = T * N + (T + J)  # entry (row t, column t + j)
+            count_ok = m is not None and (m - (N - J)).is_zero()  # t < n - j  <=>  t + j < n: exactly the j-th super-diagonal
+            where = 'T[t, t+j] = band[j] for 0 <= t < n-j'
+        else:
+            want = (T - J) * N + T  # entry (row t - j, column t)
+            count_ok = m is not None and ((m - (N - J)).is_zero() or (m - (N + J)).is_zero())  # t < n+j in bounds; larger t give k >= n^2 (dropped by scatter)
+            where = 'T[t+|j|, t] = band[|j|] for 0 <= t < n-|j| (updates with row >= n are out of bounds and dropped)'
+        ck.expect('Z9', (k - want).is_zero() and ok_val and count_ok, loop, f'flat index {k} = row*n + col: {where}',
+                  f'in the {"j >= 0" if nonneg else "j < 0"} branch the flat index is {k} (expected {want}), value from band[|j|]: {ok_val}, element count ok: {count_ok}: the dense matrix is not T[i,k] = band[|i-k|]', instance=inst)
+    ck.floor('Z9', nbranch, 2, 'sign branches of the dense builder')
+    rets = [st for st in fn.body if isinstance(st, ast.Return)]
+    rt = term(rets[0].value) if rets else None
+    ok_r = rt is not None and rt[0] == 'call' and rt[1][0] == 'attr' and rt[1][2] == 'reshape' and rt[2] == (('var', n_name), ('var', n_name))
+    zeros_ok = any(isinstance(st, ast.Assign) and 'jnp.zeros(' in ast.unparse(st.value) and f'{n_name} ** 2' in ast.unparse(st.value) for st in fn.body)
+    ck.expect('Z9', ok_r and zeros_ok, fn, 'the n*n zero buffer is filled and reshaped row-major to (n, n): entries outside the band stay 0, and T[i,k] = T[k,i] (symmetric) by the two branches',
+              f'the dense builder returns {show(rt)} from a buffer that is not n**2 zeros', instance='row-major n x n')
 
 
 def controls(world: World) -> list[Control]:
@@ -158,5 +260,6 @@ def controls(world: World) -> list[Control]:
         Control('band-count-from-size', lambda w: edit_def(w, TOE, 'SymmetricBandToeplitzOperator.__init__', lambda fn: replace_expr(fn, 'band_values.shape[-1]', 'band_values.size')), 'C09.Z5'),
         Control('buffer-without-dtype', lambda w: edit_def(w, TOE, 'SymmetricBandToeplitzOperator._apply_overlap_save', lambda fn: replace_expr(fn, 'jnp.zeros(l + x_padding_end, dtype=jnp.result_type(x, band_values))', 'jnp.zeros(l + x_padding_end)')), 'C09.Z4'),
         Control('traced-loop-bound', lambda w: edit_def(w, TOE, 'SymmetricBandToeplitzOperator._apply_overlap_save', lambda fn: replace_expr(fn, 'int(np.ceil((l + overlap) / step_size))', 'int(np.ceil((l + overlap) / step_size) + 0 * x[0])')), 'C09.Z3'),
+        Control('dense-offset-slip', lambda w: edit_def(w, TOE, 'dense_symmetric_band_toeplitz', lambda fn: replace_expr(fn, '-n * j + jnp.arange(m) * (n + 1)', '-n * j + jnp.arange(m) * n')), 'C09.Z9'),
         Control('unguarded-negative-slice', lambda w: edit_def(w, TOE, 'SymmetricBandToeplitzOperator._apply_fft', lambda fn: remove_stmt(fn, 'if half_band_width == 0:', prefix=True)), 'C09.Z8'),
     ]
